@@ -41,8 +41,8 @@ class ConditionalEffect:
         for effect in self.discrete_effects:
             effect.change_signature(old_to_new_param_names)
 
-        # the effects are hashed by their text, which has just changed.
-        self.discrete_effects = set(self.discrete_effects)
+        # the effects are hashed by their text, which has just changed (set(a_set) would copy the stored hashes).
+        self.discrete_effects = set(list(self.discrete_effects))
         for effect in self.numeric_effects:
             effect.change_signature(old_to_new_param_names)
 
